@@ -209,3 +209,4 @@ TECHNIQUE = 'interpreter-level instrumentation: sys.monitoring LINE-event counte
 LEVEL_TEXT = ('Each input family is printed at four doubling sizes under a line-event counter; a size that needs more than 64 times the lines of the previous one (or the first size more than 3 M lines) '
               'is a violation, reached in bounded time because the counter aborts the print. Fixed depth/length families and seeded random wrapper recipes at three widths and both sort settings.')
 LEVEL_NOTE = 'Polynomial growth is judged as "factor <= 64 per doubling" on the sizes tried (up to depth 64 / length 800); unbounded termination cannot be decided by a finite run.'
+ANCHORS = ['doctypes.FlatChoice.normalize', 'prettyprinter.pretty_dict', 'prettyprinter.str_to_lines', 'prettyprinter.sequence_of_docs', 'layout.best_layout']
